@@ -28,9 +28,18 @@ What runs (DESIGN 5/C19):
   * Correspondence corr:C19:SWAP -- the first pass of the real `include_subclasses(K0, conv, union_strategy=…)` on
     generated class hierarchies (the only place where cattrs swaps the working set) against the refined machine with
     `swap` operations (theorems C19_swap_*).
+  * Hangs: every lock cattrs code creates is a cooperative lock of the scheduler (harness/sched.py), so "no live thread
+    can run" is detected exactly; the schedule is run once more and a deadlock that comes back is a VIOLATION (the
+    sequential run of the same calls completed) with the schedule as failing input.  A token holder that reaches no
+    scheduling point for `Scheduler.HANG` seconds is retried the same way (reproducible = VIOLATION, else exit 2).
+  * Correspondence corr:C19:OPTIONS -- the option attributes of the converter are what the constructor set whenever the
+    scheduling token changes hands (the model treats them as constants).
+  * The class graphs contain NamedTuples handled by the opt-in dict factories of `cattrs.cols`, registered with
+    `detailed_validation` OPPOSITE to the converter's; a quarter of the structure payloads is damaged; exceptions are
+    compared by class (incl. nested groups).
 Partial: interleavings are explored at statement (line-event) granularity, atomicity of single dict / set /
 lru_cache operations under the GIL is assumed.
-A scheduler timeout is an infrastructure error (exit 2), never a violation.
+Any other scheduler timeout is an infrastructure error (exit 2), never a violation.
 """
 from __future__ import annotations
 
@@ -52,7 +61,7 @@ from cattrs import Converter  # noqa: E402
 
 from harness import framework, lean  # noqa: E402
 
-KINDS = ("attrs", "dc", "td")
+KINDS = ("attrs", "dc", "td", "nt")     # nt = NamedTuple handled by the opt-in dict factories of cattrs.cols
 _mod_counter = [0]
 
 
@@ -101,7 +110,7 @@ def ty_src(t):
 
 
 def graph_source(g):
-    out = ["from __future__ import annotations", "import attrs, dataclasses", "from typing import Optional, TypedDict", ""]
+    out = ["from __future__ import annotations", "import attrs, dataclasses", "from typing import NamedTuple, Optional, TypedDict", ""]
     for i, c in enumerate(g["classes"]):
         base = f"(K{c['base']})" if c.get("base") is not None else ""
         if c["kind"] == "attrs":
@@ -110,12 +119,28 @@ def graph_source(g):
         elif c["kind"] == "dc":
             out.append("@dataclasses.dataclass")
             out.append(f"class K{i}{base}:")
+        elif c["kind"] == "nt":
+            out.append(f"class K{i}(NamedTuple):")
         else:
             out.append(f"class K{i}(TypedDict):")
         for name, t in c["fields"]:
             out.append(f"    {name}: {ty_src(t)}")
         out.append("")
     return "\n".join(out)
+
+
+OPTION_ATTRS = ("detailed_validation", "forbid_extra_keys", "omit_if_default", "_prefer_attrib_converters",
+                "_unstructure_attrs", "_structure_attrs", "_dict_factory")
+
+
+def option_view(conv):
+    """the construction options of a converter (identity of callables): constants of the model -- nothing may write
+    them while hooks are generated"""
+    out = []
+    for a in OPTION_ATTRS:
+        v = getattr(conv, a, None)
+        out.append(v if isinstance(v, (bool, int, str, type(None))) else id(getattr(v, "__func__", v)))
+    return tuple(out)
 
 
 class World:
@@ -131,6 +156,17 @@ class World:
         self.cls = [getattr(self.mod, f"K{i}") for i in range(len(g["classes"]))]
         self.ix = {id(c): i for i, c in enumerate(self.cls)}
         self.conv = Converter()
+        nts = [c for c, k in zip(self.cls, g["classes"]) if k["kind"] == "nt"]
+        if nts:
+            # the opt-in dict hooks for NamedTuples, structuring in the validation mode the converter is NOT in
+            from cattrs.cols import namedtuple_dict_structure_factory, namedtuple_dict_unstructure_factory
+            is_nt = lambda t: any(t is c for c in nts)  # noqa: E731
+            other_mode = not self.conv.detailed_validation
+            self.conv.register_structure_hook_factory(
+                is_nt, lambda t, c: namedtuple_dict_structure_factory(t, c, other_mode))
+            self.conv.register_unstructure_hook_factory(
+                is_nt, lambda t, c: namedtuple_dict_unstructure_factory(t, c))
+        self.options = option_view(self.conv)
         self.instrumented = sched.instrument_converter(self.conv)   # memo-table tracing (corr:C19:GENSCHED)
 
     def abstract(self, t):
@@ -262,7 +298,7 @@ def gen_calls(rng, g, nthreads):
             call = {"op": op, "root": root, "value": v}
             if op == "s":
                 p = encode(g, v)
-                if rng.random() < 0.15:
+                if rng.random() < 0.25:
                     p = corrupt(rng, p)
                     call["corrupted"] = True
                 call["payload"] = p
@@ -795,6 +831,14 @@ def concurrent_run(g, calls, policy, record_points=False, want=None):
     w = World(g)
     outs = [[] for _ in calls]
     S = sched.Scheduler(policy, want=want, record_points=record_points)
+    w.option_drift = None
+
+    def probe(tid):
+        # converter options are constants of the model: whenever the token changes hands they must be what the
+        # constructor made them (a factory that writes them "temporarily" exposes the other threads to them)
+        if w.option_drift is None and option_view(w.conv) != w.options:
+            w.option_drift = (tid, S.steps, [a for a, x, y in zip(OPTION_ATTRS, option_view(w.conv), w.options) if x != y])
+    S.on_switch = probe
     try:
         TRACE.start()
         res = S.run([thread_fn(w, mine, outs[i]) for i, mine in enumerate(calls)])
@@ -802,10 +846,30 @@ def concurrent_run(g, calls, policy, record_points=False, want=None):
         w.glog = TRACE.glog
     finally:
         TRACE.stop()
-    for i, r in enumerate(res):
-        if r is None or r[0] == "err":   # thread_fn catches Exception; anything else is the harness's problem
-            raise lean.InfraError(f"worker {i} died: {r!r}")
+    if S.deadlock is None:
+        for i, r in enumerate(res):
+            if r is None or r[0] == "err":   # thread_fn catches Exception; anything else is the harness's problem
+                raise lean.InfraError(f"worker {i} died: {r!r}")
+        if option_view(w.conv) != w.options and w.option_drift is None:
+            w.option_drift = (-1, S.steps, ["(after the run)"])
     return outs, log, w, S
+
+
+def hang_check(g, calls, pol, want, first):
+    """A run that did not end.  `first` = a deadlock description (exact: cooperative locks) or a SchedTimeout.
+    The same schedule is run once more: a deadlock / hang that comes back is a property of the code (the sequential
+    run of the same calls completed) -> description; otherwise None = the machine was slow (infrastructure)."""
+    try:
+        _, _, w2, S2 = concurrent_run(g, calls, pol, want=want)
+        w2.close()
+        again = S2.deadlock
+    except sched.SchedTimeout as e:
+        again = "no progress again" if getattr(e, "hung", False) else None
+    if again is None:
+        return None
+    if isinstance(first, str):
+        return "DEADLOCK (reproduced by re-running the schedule): " + first
+    return "HANG (no scheduling point reached for %.0f s, twice, under the same schedule): %s" % (sched.Scheduler.HANG, first)
 
 
 def first_diff(a, b):
@@ -893,7 +957,24 @@ def run(chk: framework.Check):
             chk.note("graph-with-unreduced-scheduling-points")
         for pi, pol in enumerate(policies):
             tc = time.time()
-            outs, log, w, S = concurrent_run(g, calls, pol, want=want)
+            case = case_of(g, calls, pol)
+            try:
+                outs, log, w, S = concurrent_run(g, calls, pol, want=want)
+                stuck = S.deadlock
+            except sched.SchedTimeout as e:
+                if not getattr(e, "hung", False):
+                    raise
+                stuck = e
+            if stuck is not None:
+                what = hang_check(g, calls, pol, want, stuck)
+                if what is None:
+                    raise lean.InfraError(f"a schedule did not end once and ended when repeated: {stuck}")
+                oracle_failed = True
+                chk.violation("C19 oracle: the concurrent run never returns although the sequential run of the same calls "
+                              "completes: " + what, case)
+                if len(chk.violations) >= 3:
+                    break
+                continue
             t_conc += time.time() - tc
             w.close()
             total_points += S.steps
@@ -904,11 +985,16 @@ def run(chk: framework.Check):
                       sample={"source": graph_source(g), "threads": nthreads, "policy": pol.to_json(),
                               "scheduling_points": S.steps, "switches": S.switches, "ws_log_events": len(log)})
             chk.note("policy:" + pol.to_json()["kind"], f"switches:{min(S.switches // 50 * 50, 500)}+")
-            case = case_of(g, calls, pol)
             if outs != ref:
                 oracle_failed = True
                 chk.violation("C19 oracle: concurrent results differ from the sequential run: " + first_diff(outs, ref), case)
                 continue
+            if w.option_drift is not None:
+                corr_fail.append((f"corr:C19:OPTIONS thread {w.option_drift[0]} was descheduled at scheduling point "
+                                  f"{w.option_drift[1]} while the converter options {w.option_drift[2]} differed from what the "
+                                  "constructor set (the model treats them as constants; hooks other threads generate in "
+                                  "that window are built for the wrong options)", case))
+                chk.note("option-drift-observed")
             bad = wslog_check(drv, w, log)
             if bad:
                 corr_fail.append(("corr:C19:WSLOG " + bad, case))
@@ -980,8 +1066,12 @@ def failing_input_search(chk, rng, corr_fail):
         ref, _, w = sequential_reference(g, calls)
         w.close()
         pol = sched.RandomPolicy(rng.getrandbits(48), rng.choice((0.3, 0.6, 0.9)))
-        outs, _, w, _ = concurrent_run(g, calls, pol)
+        outs, _, w, S = concurrent_run(g, calls, pol)
         w.close()
+        if S.deadlock is not None:
+            chk.violation("C19 oracle (found while searching after a broken correspondence): the concurrent run never "
+                          "returns: DEADLOCK " + S.deadlock, case_of(g, calls, pol))
+            return True
         if outs != ref:
             chk.violation("C19 oracle (found while searching after a broken correspondence: " + corr_fail[0][0][:300]
                           + "): concurrent results differ from the sequential run: " + first_diff(outs, ref), case_of(g, calls, pol))
@@ -1031,6 +1121,10 @@ def replay(case):
     ref, _, w = sequential_reference(g, calls)
     w.close()
     outs, log, w, S = concurrent_run(g, calls, pol)
+    if S.deadlock is not None:
+        print("sequential:", ref)
+        print("concurrent: DEADLOCK --", S.deadlock)
+        return 1
     drv = lean.Driver()
     bad = wslog_check(drv, w, log)
 
